@@ -38,6 +38,7 @@ func permGen(tier string) GenOpts {
 	o.NoScopedInitSingle = false
 	o.PVoid = 100
 	o.MaxDeps = 3
+	o.PShuffleRegs = 0
 	if tier == "thorough" {
 		o.MaxRegs = 9
 	}
